@@ -43,7 +43,7 @@ def arange_model(start, stop, step):
     x_i = start + i*(x1-x0).  The symbolic length is realised (bounded by the grid)."""
     start, stop, step = SymFP.lift(start), SymFP.lift(stop), SymFP.lift(step)
     nbv = ((stop - start) / step).ceil_int(32)
-    n = engine().realise_int(z3.BV2Int(nbv, is_signed=True))
+    n = engine().realise_bv(nbv)
     if n <= 0:
         return ArangeResult([])
     vals = [start]
@@ -83,7 +83,14 @@ class NpShadow:
 
 
 def w_range(cfg, tier):
-    """cfg = 'range k=<k> j=<j> c=<c>': min = a/10^k (a symbolic), step = c/10^k, max = (a+j*c)/10^k."""
+    """cfg = 'range k=<k> j=<j> c=<c> r=<r>': min = a/10^k (a symbolic), step = c/10^k,
+    max = (a + j*c + r)/10^k.
+
+    Candidate-driven exploration: the two integers the real code derives from floating point (numpy's
+    arange length and, in the repaired code, the number of values kept) are not enumerated by the solver
+    path by path; the harness runs the real function once per candidate pair and then discharges
+    (i) every candidate pair that yields a wrong answer is infeasible, (ii) the candidates cover all
+    inputs.  Each obligation is one stand-alone QF_BVFP query (cvc5, z3 as fall-back)."""
     import panqec.cli as cli
     parts = dict(p.split('=') for p in cfg.split()[1:])
     k, j, c = int(parts['k']), int(parts['j']), int(parts['c'])
@@ -101,51 +108,81 @@ def w_range(cfg, tier):
         if s in tokens:
             return tokens[s]
         return float(s)
+
+    def fwit(av):
+        f = lambda x: f'{x / 10 ** k:.{k}f}'
+        return dict(spec=f'{f(av)}:{f(av + j * c + rem)}:{f(c)}', a=av, k=k, j=j, c=c, r=rem)
+
+    def decide(oid, terms, detail):
+        try:
+            r, vals, dt = col.solve_cvc5(dom + terms, 600000, want=['a'])
+        except Exception as ex:          # fall back to z3
+            r, m, dt = col.solve(dom + terms, 600000)
+            vals = {'a': m.eval(a, model_completion=True).as_long()} if m is not None else {}
+        col.record(oid, r, dt, True, fwit(vals['a']) if r == 'sat' and 'a' in vals else None, detail)
+        return r
+
     saved = (cli.__dict__.get('float'), cli.np)
     cli.float = sym_float
     cli.np = NpShadow()
-    eng = Engine(name=cfg, max_paths=400, timeout_ms=300000, incremental=False)
-    eng.base += dom
+    runs = []
+    cands = [j, j + 1, j + 2]
     try:
-        with eng:
-            ps = eng.explore(lambda: cli.read_range_input('MIN:MAX:STEP'))
+        # how many symbolic integers does this version of the function realise?  probe with an
+        # over-long forcing list and look at what was consumed
+        for n_real in (1, 2, 3):
+            ok = True
+            for combo in itertools.product(cands, repeat=n_real):
+                eng = Engine(name=cfg, max_paths=5, incremental=False)
+                eng.forced = list(combo) + [None]
+                with eng:
+                    try:
+                        eng._start_path([])
+                        val = cli.read_range_input('MIN:MAX:STEP')
+                        exc = None
+                    except Exception as ex:          # noqa
+                        val, exc = None, ex
+                consumed = n_real + 1 - len(eng.forced)
+                if exc is not None and eng.forced == []:
+                    ok = False       # needs more forced values
+                    break
+                if consumed < n_real:
+                    # fewer realisations on this run: keep only the combos that differ in the used prefix
+                    if any(r_[0][:consumed] == combo[:consumed] for r_ in runs):
+                        continue
+                runs.append((combo[:consumed], list(eng.pc), val, exc))
+            if ok:
+                break
+            runs = []
     finally:
         if saved[0] is None:
             del cli.float
         else:
             cli.float = saved[0]
         cli.np = saved[1]
-    col.absorb(eng)
 
-    def wit(m):
-        av = m.eval(a, model_completion=True).as_long()
-        f = lambda x: f'{x / 10 ** k:.{k}f}'
-        return dict(spec=f'{f(av)}:{f(av + j * c + rem)}:{f(c)}', a=av, k=k, j=j, c=c, r=rem)
-    bad_len, bad_last, bad_first = [], [], []
-    for p in ps:
-        if p.exc is not None:
-            r, m, dt = col.solve(dom + p.pc, 120000)
-            col.record('C19/read_range_input/no-exception', r, dt, True, wit(m) if m else None,
-                       f'{type(p.exc).__name__}: {p.exc}')
+    lim = tokens['MAX'] + tokens['STEP'] / 2
+    n_wrong = n_val = 0
+    for combo, pc_, vals, exc in runs:
+        tag = 'x'.join(map(str, combo))
+        if exc is not None:
+            decide(f'C19/read_range_input/no-exception/cand{tag}', pc_, f'{type(exc).__name__}: {exc}')
             continue
-        vals = p.value
-        bad_len.append(z3_and(p.pc + [z3.BoolVal(len(vals) != j + 1)]))
-        if vals:
-            bad_first.append(z3_and(p.pc + [z3.Not(z3.fpEQ(SymFP.lift(vals[0]).t, tokens['MIN'].t))]))
-            # the value claim is decided where it needs no floating-point multiplication (the first two
-            # entries of numpy's progression are min and min+step); beyond that it follows from the
-            # length claim up to ulps of numpy's own progression, which the suite pins bit for bit
-            lim = tokens['MAX'] + tokens['STEP'] / 2
-            for v in vals[:2] + (vals[-1:] if len(vals) == 2 else []):
-                bad_last.append(z3_and(p.pc + [z3.fpGT(SymFP.lift(v).t, lim.t)]))
-            if len(vals) > j + 1 or (len(vals) >= 2 and j == 0):
-                bad_last.append(z3_and(p.pc))      # an extra element lies a whole step beyond max
-    col.prove('C19/read_range_input/number-of-values', dom, z3_or(bad_len), wit,
-              f'min:max:step with max = min + {j}*step + {rem}/10^{k} yields exactly {j + 1} values (doubles), all a <= {amax}',
-              timeout_ms=600000)
-    col.prove('C19/read_range_input/first-value-is-min', dom, z3_or(bad_first), wit, timeout_ms=600000)
-    col.prove('C19/read_range_input/no-value-beyond-max', dom, z3_or(bad_last), wit,
-              'no element a step beyond max; min and min+step never exceed max + step/2 (IEEE doubles)', timeout_ms=600000)
+        if len(vals) != j + 1:
+            n_wrong += 1
+            decide(f'C19/read_range_input/number-of-values/cand{tag}', pc_,
+                   f'candidate (arange length, kept) = {combo} would give {len(vals)} values instead of {j + 1}: '
+                   'must be infeasible for every a')
+        else:
+            n_val += 1
+            bad = [z3.Not(z3.fpEQ(SymFP.lift(vals[0]).t, tokens['MIN'].t))]
+            bad += [z3.fpGT(SymFP.lift(v).t, lim.t) for v in vals[:2]]
+            decide(f'C19/read_range_input/values-start-at-min-and-stay-below-max/cand{tag}', pc_ + [z3.Or(bad)],
+                   f'candidate {combo}: first value == min; min and min+step <= max + step/2 (IEEE doubles); an '
+                   'extra element a whole step beyond max is excluded by the length obligation')
+    decide('C19/read_range_input/candidates-cover-all-inputs',
+           [z3.Not(z3.Or([z3.And(pc_) if pc_ else z3.BoolVal(True) for _, pc_, _, _ in runs]))],
+           f'{len(runs)} candidate runs ({n_val} with the right length) cover every a <= {amax}')
     return col.result()
 
 
@@ -348,10 +385,10 @@ def replay(path):
             print(w['spec'], '->', vals)
             if 'number' in oid:
                 bad = len(vals) != w['j'] + 1
-            elif 'beyond' in oid:
-                bad = vals[-1] > mx + st / 2
-            elif 'first' in oid:
-                bad = vals[0] != mn
+            elif 'values-start' in oid:
+                bad = vals[0] != mn or any(v > mx + st / 2 for v in vals[:2])
+            elif 'cover' in oid or 'no-exception' in oid:
+                bad = False
         elif cfg.startswith('direction'):
             import panqec.utils as ut
             from fractions import Fraction
